@@ -47,6 +47,9 @@ CLAIMS = {
  'C15': ("bumpFixed_ok_iff, bumpFixed_preserves, after_any_bumps_safe: the repaired rule (checked_add, assert, then assign) succeeds exactly when the new end is representable, in range and on a boundary, and every sequence of bumps, successful or panicking, leaves a span for which slice()/remainder() are defined; bumpFound_* prove that the code as found violated this (kept as regression witnesses); real Lexer::bump exercised at boundary values in debug/release x default/forbid_unsafe under catch_unwind.",
          "the model treats usize as 64-bit; 32-bit targets are not exercised.",
          "Lean theorems on the bump rule + boundary-value correspondence in 4 builds"),
+ 'C17': ("stripFixed_entries / stripFixed_no_logos / stripFixed_id: the derive-list rewrite keeps exactly the entries that do not name Logos, path-qualified ones included, unchanged and in order (stripFound_counterexample: the code as found did not); check_never_writes, check_ok_iff, write_then_check_ok for the CLI's write/check logic; real strip_attributes output compared structurally (syn) with the input for generated enum sources; the real logos-cli binary driven through random write/check/corrupt/CRLF/delete sequences with file snapshots.",
+         "--format (rustfmt) not exercised; 'denotes Logos' = last path segment is Logos.",
+         "Lean theorems on the rewrite and CLI models + structural correspondence with the real binary"),
  'C18': ("Model of AttributeParser::next and parse_definition over abstract token trees; allNested_render (the tokenizer reads back exactly the items written, in any order), named_args_perm (every permutation of well-formed named arguments parses to the same canonical Definition), parseArgs_errors_iff (acceptance depends only on the multiset of arguments); group_then_assign_counterexample proves the code as found violated it; all permutations of every argument subset run through the real derive and compared (verdict, diagnostics, leaves, generated code), the model compared with the real parser on well-formed and malformed lists.",
          "equivalence of lexers under permutation of #[logos(...)] items is checked on captured leaves (order-insensitive), not proved.",
          "Lean theorems on the tokenizer model + all-permutations correspondence"),
